@@ -13,12 +13,16 @@ use crate::{
     Error,
 };
 
-impl From<TirEnvelope> for Vec<u8> {
-    fn from(envelope: TirEnvelope) -> Self {
-        match envelope.encoding {
-            BytesEncoding::Base64 => base64_to_bytes(&envelope.content).unwrap(),
-            BytesEncoding::Hex => hex_to_bytes(&envelope.content).unwrap(),
-        }
+impl TryFrom<TirEnvelope> for Vec<u8> {
+    type Error = Error;
+
+    fn try_from(envelope: TirEnvelope) -> Result<Self, Self::Error> {
+        let bytes = match envelope.encoding {
+            BytesEncoding::Base64 => base64_to_bytes(&envelope.content)?,
+            BytesEncoding::Hex => hex_to_bytes(&envelope.content)?,
+        };
+
+        Ok(bytes)
     }
 }
 
@@ -28,7 +32,7 @@ impl TryFrom<TirEnvelope> for AnyTir {
     fn try_from(envelope: TirEnvelope) -> Result<Self, Self::Error> {
         let version = TirVersion::try_from(envelope.version.as_str())?;
 
-        let bytes: Vec<u8> = envelope.into();
+        let bytes: Vec<u8> = envelope.try_into()?;
 
         let tir = tx3_tir::encoding::from_bytes(&bytes, version)?;
 
